@@ -192,7 +192,25 @@ def fill_contract(rep):
     outs, ex, bad = _explore(UTILS, 'fill_query_params', body)
     v = bad or _judge(outs, ex, post)
     _emit(rep, 'C12.fill', v, fn,
-          "ensures the k-th Parameter shown to the visitor is replaced by Constant(copy(params)[k]); other nodes kept; caller's list untouched; one traversal; returns query")
+          "ensures the k-th Parameter shown to the visitor is replaced by Constant(copy(params)[k]); other nodes kept; caller's list untouched; one traversal; returns query",
+          replay=replay_fill)
+
+
+def replay_fill():
+    from mindsdb_sql import parse_sql
+    from mindsdb_sql.planner.utils import fill_query_params, get_query_params
+    sql = 'SELECT * FROM tab1 WHERE a = ? AND b = ? AND c IN (?, ?)'
+    vals = [1, 0, '', 4]
+    try:
+        q = parse_sql(sql)
+        n = len(get_query_params(q))
+        given = list(vals)
+        out = str(fill_query_params(q, given))
+    except Exception as e:
+        return {'input': sql, 'dialect': 'mindsdb', 'fires': True, 'observed': f'{type(e).__name__}: {e}'[:150], 'expected': "a = 1 AND b = 0 AND c IN ('', 4)"}
+    ok = n == 4 and given == vals and "a = 1 AND b = 0 AND c IN ('', 4)" in out
+    return {'input': f'{sql} with values {vals!r}', 'dialect': 'mindsdb', 'fires': not ok, 'observed': f'{n} placeholders found; filled: {out}; caller list afterwards {given!r}',
+            'expected': "4 placeholders; ... a = 1 AND b = 0 AND c IN ('', 4); caller list unchanged"}
 
 
 # ------------------------------------------------------------------ prepare / execute / info
